@@ -50,7 +50,7 @@ func expectedName(cs cfgSpec, rejected bool) string {
 	case nsStar:
 		return ""
 	}
-	return nameS
+	return cs.serverName() // Config.ServerName as configured — whatever did or did not go into SNI
 }
 
 // verdict of the property for one presented leaf: must the certificate be accepted / refused, and with
@@ -111,7 +111,7 @@ func (e *env) coqRoots() string {
 // Coq ids: root CAs are 1 (trusted) and 2 (untrusted); the intermediate of leaf kind k is 10+k.
 func coqLeaf(l *leaf) string {
 	var ns []string
-	for _, n := range l.cert.DNSNames {
+	for _, n := range l.sanNames() {
 		ns = append(ns, vh.Str(n))
 	}
 	issuer := 1
@@ -138,7 +138,7 @@ func coqChain(l *leaf) string {
 }
 
 func (e *env) coqCfg(cs cfgSpec) string {
-	return fmt.Sprintf("(mkConfig %s %s %s %s %s %s %s None true)", vh.Str(nameS), vh.Str(cs.inv.value()),
+	return fmt.Sprintf("(mkConfig %s %s %s %s %s %s %s None true)", vh.Str(cs.serverName()), vh.Str(cs.inv.value()),
 		vh.Bool(cs.skipVerify), vh.Bool(cs.skipTime), e.coqRoots(), vh.Z(cs.now().Unix()), vh.Bool(cs.ech != echNone))
 }
 
@@ -167,9 +167,9 @@ type hsJob struct {
 func (e *env) judge(c *vh.Ctx, cs cfgSpec, lk leafKind, o obs) {
 	l := e.p.leaves[lk]
 	rejected := cs.ech != echNone && !o.echAccepted
-	in := map[string]any{"config": cs.key(), "leaf": lk.String(), "leaf_names": l.cert.DNSNames,
+	in := map[string]any{"config": cs.key(), "leaf": lk.String(), "leaf_names": l.sanNames(), "sni": cs.sni.String(), "observed_conn_serverName": o.connName,
 		"leaf_not_before": l.cert.NotBefore, "leaf_not_after": l.cert.NotAfter, "trusted_issuer": l.trusted,
-		"intermediates": interDesc(l), "client_time": cs.now(), "ServerName": nameS, "InsecureServerNameToVerify": cs.inv.value(), "ech_public_name": nameP}
+		"intermediates": interDesc(l), "client_time": cs.now(), "ServerName": cs.serverName(), "InsecureServerNameToVerify": cs.inv.value(), "ech_public_name": nameP}
 	if len(o.class) > 6 && o.class[:6] == "other:" {
 		// not a certificate outcome (I/O, an unrelated handshake failure): outside this property, but never silent
 		c.Count("unrelated-handshake-error")
@@ -183,6 +183,9 @@ func (e *env) judge(c *vh.Ctx, cs cfgSpec, lk leafKind, o obs) {
 	v := e.oracle(cs, rejected, l)
 	passed := o.class == "ok" || o.class == "ech-rejected"
 	scen := fmt.Sprintf("%s/inv=%s/skiptime=%v/skipverify=%v", cs.ech, cs.inv, cs.skipTime, cs.skipVerify)
+	if cs.nameGrid() {
+		scen += fmt.Sprintf("/servername=%s/%s", cs.sn, cs.sni)
+	}
 	switch {
 	case passed && v.mustFail:
 		wantClass := v.class
@@ -287,6 +290,51 @@ func allConfigs(cl clientID) []cfgSpec {
 	return out
 }
 
+// nameGridConfigs: ServerNames that never reach SNI as configured (IP literals, trailing dot) and clients that send
+// no SNI at all. Verification still has to use Config.ServerName. No ECH, verification on, both versions.
+func nameGridConfigs() (mandatory, rest []cfgSpec) {
+	add := func(cs cfgSpec) {
+		if cs.inv == nsUnset && (cs.vers == tls.VersionTLS13 || cs.sni != sniNormal) {
+			mandatory = append(mandatory, cs)
+		} else {
+			rest = append(rest, cs)
+		}
+	}
+	for _, v := range []uint16{tls.VersionTLS13, tls.VersionTLS12} {
+		for _, inv := range []nameSetting{nsUnset, nsOther, nsStar} {
+			for _, cl := range quickClients[:3] { // tls.Client, UClient(HelloGolang), Chrome_120
+				for _, sn := range []snKind{snDot, snIP4, snIP6, snIP6Br} {
+					add(cfgSpec{cl: cl, vers: v, inv: inv, sn: sn})
+				}
+			}
+			add(cfgSpec{cl: quickClients[2], vers: v, inv: inv, sni: sniRemoved}) // Chrome_120
+			add(cfgSpec{cl: quickClients[3], vers: v, inv: inv, sni: sniRemoved}) // Firefox_120
+			add(cfgSpec{cl: quickClients[2], vers: v, inv: inv, sni: sniCustom})
+		}
+	}
+	return
+}
+
+// leavesFor: the chains a configuration is run against.
+func leavesFor(cs cfgSpec) []leafKind {
+	if cs.nameGrid() {
+		return []leafKind{lAll, lS, lO, lP, lW, lIP, lIPOther, lUntrusted}
+	}
+	var out []leafKind
+	for lk := leafKind(0); lk < lIP; lk++ {
+		// the 4 chains with an intermediate only where a verification takes place (with InsecureSkipVerify and no
+		// rejection every chain passes trivially)
+		if lk >= lIntT && cs.skipVerify && cs.ech != echReject {
+			continue
+		}
+		out = append(out, lk)
+	}
+	if !cs.skipVerify && cs.ech == echNone {
+		out = append(out, lIP) // a leaf without any DNS name
+	}
+	return out
+}
+
 func runC14(c *vh.Ctx) {
 	e := newEnv()
 	defer e.close()
@@ -313,6 +361,9 @@ func runC14(c *vh.Ctx) {
 		cfgs = append(cfgs, allConfigs(cl)...)
 	}
 	if c.Tier != "quick" {
+		ngm, ngr := nameGridConfigs()
+		cfgs = append(cfgs, ngm...)
+		cfgs = append(cfgs, ngr...)
 		// every further parrot: a random third of the matrix each (seeded)
 		for _, cl := range moreClients {
 			for _, cs := range allConfigs(cl) {
@@ -324,14 +375,20 @@ func runC14(c *vh.Ctx) {
 	} else {
 		// quick: every ECH-rejected configuration for every ECH-capable entry point
 		// (tls.Client, UClient(HelloGolang), parrots), plus a seeded sample of the remaining matrix up to -n configurations
+		// mandatory: every ECH-rejected configuration of tls.Client and UClient(HelloGolang), the verifying default-time ones of
+		// the ECH parrots, and the name-grid configurations with the default name setting
 		var keep, rest []cfgSpec
 		for _, cs := range cfgs {
-			if cs.ech == echReject {
+			golike := cs.cl.plain || cs.cl.name == "HelloGolang"
+			if cs.ech == echReject && (golike || (!cs.skipVerify && !cs.skipTime)) {
 				keep = append(keep, cs)
 			} else {
 				rest = append(rest, cs)
 			}
 		}
+		ngm, ngr := nameGridConfigs()
+		keep = append(keep, ngm...)
+		rest = append(rest, ngr...)
 		c.Rng.Shuffle(len(rest), func(i, j int) { rest[i], rest[j] = rest[j], rest[i] })
 		if room := c.N - len(keep); room < len(rest) {
 			if room < 0 {
@@ -342,15 +399,10 @@ func runC14(c *vh.Ctx) {
 		cfgs = append(keep, rest...)
 	}
 	jobs = jobs[:0]
-	// the 9 single-certificate variants for every configuration; the 4 chains with an intermediate only where a
-	// verification takes place (with InsecureSkipVerify and no rejection every chain passes trivially)
 	var starts []int
 	for _, cs := range cfgs {
 		starts = append(starts, len(jobs))
-		for lk := leafKind(0); lk < nLeaf; lk++ {
-			if lk >= lIntT && cs.skipVerify && cs.ech != echReject {
-				continue
-			}
+		for _, lk := range leavesFor(cs) {
 			jobs = append(jobs, &hsJob{cs: cs, lk: lk})
 		}
 	}
@@ -370,8 +422,8 @@ func runC14(c *vh.Ctx) {
 			}
 			accepted = accepted || j.o.echAccepted
 		}
-		if !usable {
-			continue
+		if !usable || cs.nameGrid() {
+			continue // name-grid configurations run against another leaf set; judged per handshake only
 		}
 		nm, nmText := inferName(pass)
 		tc, tcText := inferTime(pass)
@@ -447,6 +499,11 @@ func (e *env) x509Cases(c *vh.Ctx) {
 				coq := fmt.Sprintf("(CX509 %s %s %s %s %s)", e.coqRoots(), coqChain(l), vh.Str(n), vh.Z(t.Unix()), vh.Bool(ok))
 				c.Case("x509", coq, fmt.Sprintf("%s|%s|%d", lk, n, t.Unix()), n != "", nil)
 			}
+		}
+		for _, n := range []string{nameS + ".", ip4, ip6, "[" + ip6 + "]", ipOther, nameO} {
+			ok := e.p.x509Verify(l, n, T0) == nil
+			coq := fmt.Sprintf("(CX509 %s %s %s %s %s)", e.coqRoots(), coqChain(l), vh.Str(n), vh.Z(T0.Unix()), vh.Bool(ok))
+			c.Case("x509", coq, fmt.Sprintf("%s|%s|%d", lk, n, T0.Unix()), true, nil)
 		}
 	}
 }
